@@ -29,7 +29,7 @@ CHECKS = {
             "c05_holdings_reconcile, c05_pending_reconcile, c05_no_zero, c05_log_step, c05_with_pending at R; and at the IEEE instance for whole shares (Props/C05float.v, via Flocq): binary64 +, -, ==0 are exact on integer-valued floats below 2^53, lifted to book_trade and whole trade lists — c05f_holdings_are_bought_minus_sold: the float holdings ARE bought minus sold and a flat position is absent, no rounding. END TO END over the composition for an arbitrary client (Props/C05sys.v): the broker's trade log IS the exchange's own trade log of its backtest, holdings are bought minus sold over it, pending exposure per symbol equals the signed quantity of this broker's orders the exchange still holds and the map is empty as soon as none is left (c05s_pending_from_fresh).",
             TB + R_AX + "Props/C05float.v additionally depends on the specification axioms the standard library declares for primitive floats and 63-bit integers (FloatAxioms.add_spec, sub_spec, eqb_spec, opp_spec, of_uint63_spec, Prim2SF_valid, SF2Prim_Prim2SF, Prim2SF_SF2Prim; Uint63.add_spec, sub_spec, lsl_spec, lsr_spec, lor_spec, ltb_spec, leb_spec, eqb_refl, eqb_correct, of_to_Z), listed by name in the evidence. Fractional quantities: the [R] theorems stand, the gap is rounding.", "3/C05, 8.2"),
     "C06": ("Coq proof: gate characterised for every broker state and all six order types (every Num F); both client kinds + step-wise correspondence with eager and lazy harness clients",
-            "c06_gate_iff (forward iff the four conditions; never a panic, for a quoted symbol), c06_refusal_inert, c06_forward_once, c06_delivered_any_client. Every run drives send_order through an eager and a lazily polled client and compares what reached the exchange.",
+            "c06_gate_iff (forward iff the four conditions; never a panic, for a quoted symbol), c06_refusal_inert, c06_forward_once, c06_delivered_any_client. END TO END over the composition broker + client + Uist server + exchange, every Num F, axiom-free (Props/C06sys.v): a refused order leaves the WHOLE system unchanged (c06s_refused_inert); a forwarded one lands exactly once, unchanged, at the end of its backtest's buffer with the resting book, ids, log, clock and every other backtest untouched and only pending exposure moving in the broker (c06s_forwarded_once), and the next check admits it under a fresh id without filling it (c06s_forwarded_then_admitted). Every run drives send_order through an eager and a lazily polled client and compares what reached the exchange.",
             TB + "'well-formed' is read as 'for a symbol with a last-seen quote' (the code unwraps the quote; modelled as Panic, excluded by premise). The reqwest Client is represented by an in-process lazy client.", "3/C06"),
     "C07": ("Coq proof: clock lemma by induction over all interleavings, generic in the exchange; loop termination with fuel + step-wise correspondence with shadow exchange",
             "c07_tick, c07_clock_after_history, c07_now, c07_fetch_quotes, c07_loop_count, c07_loop_terminates for both services (same generic model); the datasets are those Penelope::add_quote builds (Model/Penelope.v): c07_dataset_dates (distinct dates in order of first appearance, for every loading script), c07_dataset_dates_increasing, c07_dataset_invariant, c07_dataset_rows_own_date, c07_dataset_shows_last_added. Every run also compares the model's load of each scenario's script with what the real Penelope shows, and drives the crate's own uistv1_client::TestClient through whole histories on several backtests in LOCKSTEP with the oracle-free model (Penelope script -> AppState::single -> UistClient trait; no re-synchronisation, no sort oracle).",
@@ -38,10 +38,10 @@ CHECKS = {
             "c08_fresh_ids, c08_create_spec, c08_step_frame, c08_step_local, c08_noninterference, c08_unknown_backtest/_dataset. Besides the step-wise comparison of AppState (both services), every run drives the crate's own uistv1_client::TestClient over several backtests in lockstep with the oracle-free model; when that breaks, the isolation clause is read directly (the same history with the other backtests' requests removed must give the same responses).",
             TB + "Mutex atomicity of handlers is read off the code; HTTP 400 mapping is C20's handler layer.", "3/C08"),
     "C09": ("Coq proof: Failed-iff at R (loop invariant showing the second failure exit unreachable), absorbing for every Num F + step-wise correspondence at constructed boundaries",
-            "c09_failed_iff, c09_absorbing, c09_failed_refuses, c09_failed_still_books, c09_only_reconciliation_fails.",
+            "c09_failed_iff, c09_absorbing, c09_failed_refuses, c09_failed_still_books, c09_only_reconciliation_fails. END TO END over the composition broker + client + Uist server + exchange for ALL histories, every Num F, axiom-free (Props/C09sys.v): Failed for ever (c09s_failed_forever); deposits, withdrawals and orders leave the whole system unchanged (c09s_failed_refusals_inert, c09s_failed_history); a check still books exactly the fills the tick returned into cash, holdings, pending and both logs and forwards nothing (c09s_failed_check_only_books); no order of a Failed broker ever reaches the exchange again (c09s_failed_nothing_reaches_exchange).",
             TB + R_AX + "at the boundary -cash + 1000 = liquidation value the float sum order may decide differently from the reals.", "3/C09"),
     "C10": ("Coq proof at R: loop invariant over the holdings in any iteration order + step-wise correspondence",
-            "c10_sufficient, c10_rebalance_sufficient (success => market sells within holdings worth >= request; failure => nothing queued), for whole-share long portfolios and every holdings order.",
+            "c10_sufficient, c10_rebalance_sufficient (success => market sells within holdings worth >= request; failure => nothing queued), for whole-share long portfolios and every holdings order. END TO END over the composition broker + client + Uist server + exchange (Props/C10sys.v, c10s_cash_raised): after a successful liquidation the sells are exactly the broker's outstanding orders, the first check admits them, the second fills each exactly once at the unchanged bid, and cash = cash0 + sum shares x bid >= cash0 + request with nothing outstanding, pending empty and holdings reduced by what was sold — the requested amount is really raised two ticks later.",
             TB + R_AX + "ceil/division rounding in floats is outside the theorem.", "3/C10"),
     "C11": ("Coq proof at R (sums, permutation invariance, cost-basis fold vs an independent 'since last flat' spec); stored-quote invariant through the composed system by induction over updates (every Num F) + bit-exact correspondence of all getters",
             "c11_total, c11_liq_le_total, c11_liq_eq_total_without_costs (every Num F), c11_cost_basis, c11_profit; the first sentence as theorems about the full composition for every Num F (Props/C11quotes.v): from a fresh start, after any number of updates every stored quote is latest_upto at the date index the clock shows (c11q_after_updates; a gap keeps the previous quote), never dated after the clock (c11q_never_later), the most recent quoting row (c11q_most_recent), and the position is valued at quantity x that bid (c11q_valuation).",
@@ -59,7 +59,7 @@ CHECKS = {
             "c15_scan, c15_bounds, c15_monotone, c15_calculate at R (value is the minimum over i <= j; reported dates realise it, start <= end). AT THE IEEE INSTANCE (Props/C15float.v): for every non-empty path of finite positive binary64 values the scan's answer IS the float expression v_end / v_start - 1.0 at the reported positions start <= end and is <= v_j / v_i - 1.0 (both roundings, overflow to +inf included) for every i <= j, lies in [-1, 0], and is +0.0 on a path that never falls (c15f_scan, c15f_bounds, c15f_monotone) - no real-number idealisation of the scan is left; the compounding of the index from the returns (one multiplication per period) is the part still stated over R.",
             TB + R_AX + "Props/C15float.v additionally depends on the specification axioms the standard library declares for primitive floats (FloatAxioms.div_spec, sub_spec, leb_spec, ltb_spec, eqb_spec, opp_spec, abs_spec, Prim2SF_valid, SF2Prim_Prim2SF, Prim2SF_SF2Prim), listed by name in the evidence.", "3/C15, 8.2"),
     "C16": ("Coq proof: composition model (strategy + broker + eager client + Uist server + exchange): run() performs exactly N updates by the server clock lemma; ncf ledger and 'no value from trading' invariant at R + step-wise correspondence and direct reading of whole run() calls",
-            "c16_run_walks_dataset, c16_update_is_one_tick, c16_run_fuel_irrelevant (termination after exactly N updates, snapshot dates = clock after each tick), c16_cash_flow over all histories, c16_constant_prices_end_to_end — ONE theorem about the full composition: on an N-date dataset with constant zero-spread prices (gaps allowed) init(c) then run() performs N updates, records N snapshots, every snapshot's value equals c, for every weight map, cost list, hash order and sort oracle (c16_constant_prices_with_withdrawals: minus successful plain withdrawals); the system invariant is a state property established by the fresh start. init / update / withdrawals are compared step by step with the model; whole run() calls are judged by the direct reading (history length, dates, values, ncf).",
+            "c16_run_walks_dataset, c16_update_is_one_tick, c16_run_fuel_irrelevant (termination after exactly N updates, snapshot dates = clock after each tick), c16_cash_flow over all histories, c16_constant_prices_end_to_end — ONE theorem about the full composition: on an N-date dataset with constant zero-spread prices (gaps allowed) init(c) then run() performs N updates, records N snapshots, every snapshot's value equals c, for every weight map, cost list, hash order and sort oracle (c16_constant_prices_with_withdrawals: minus successful plain withdrawals); the system invariant is a state property established by the fresh start. init / update / withdrawals are compared step by step with the model; whole run() calls are judged by the direct reading (history length, dates, values, ncf). Composed with C14 (Props/C16perf.v): perf() of such a run reports N values all c, N-1 returns all 0 and zero total return, CAGR, volatility, drawdown and Sharpe (c16p_constant_prices), and for ANY prices the report's dates are the clock dates after each tick (c16p_dates).",
             TB + R_AX + "Intermediate hash orders inside one run() call are not observable, so whole run() calls are judged by the direct reading, init/update step by step against the model. The value theorem is over the reals.", "3/C16, 8.2"),
     "C17": ("Coq proof for every admissible sort result and every batch size (skeleton, every decision function) + exact Gallina model of the standard library's stable sort (insertion sort / driftsort) proved to satisfy the specification for the exchanges' comparator at every length + exact admission order compared on every trace",
             SK + "c17_admission, c17_sells_get_smaller_ids, c17_ids_grow_with_admission, c17_fills_in_book_order, c17_book_sorted_always hold for every permutation of the buffer that puts sells first. slice::sort_by with this first-argument-only comparator is outside sort_by's contract, so Model/Sort.v transcribes what the installed std (rustc 1.95.0) does, function by function (insertion_sort_shift_left up to 20; driftsort: run detection, powersort merge tree, logical merges, merge through scratch, stable quicksort with pivot selection and the equal-partition branch, small_sort_general, the order-violation panic), generic in element type, comparator and size_of; Props/C17sort.v: the result is a permutation (c17s_result_is_permutation), sells first (c17s_sells_first), the sort never panics for this comparator (c17s_total), closed form up to 20 (sells reversed, then buys), and the oracle-free tick refines the oracle tick (c17s_tick_std_refines, c17s_run_std_refines) and never rejects. Every admission of every trace is compared with the model's exact order (aspect sort_exact, size_of::<Order>() as observed), and every observed exchange state must satisfy the invariant of the model's reachable states (book sorted by id, ids below the counter) that the per-tick theorems assume; thorough tier: sortval/run.sh compares the model with the real sort_by on 30 000+ inputs, nine comparator families (inconsistent ones included).",
